@@ -57,6 +57,11 @@ def run(ctx):
                 f.may_raise, f.construct, ",".join(sorted(srcs))), False, f.site,
                 f.detail + "; the failure (and what it aborts) happens only under this "
                 "configuration", render_path(f.path.events) if f.path else None)
+    for f in e3.by_kind("nullhandle"):
+        ctx.ob("R18.taint", "may-raise %s at %s" % (f.may_raise, f.construct), False, f.site,
+               f.detail + "; the command (and everything it would have done to the channel "
+               "store) fails exactly when no usage database is configured",
+               render_path(f.path.events) if f.path else None)
     # R18.gate
     h_list = handler_for(model, "list")
     ngate = 0
